@@ -1,6 +1,6 @@
 //! C09 — the decoded variant follows the 6-bit type; unsupported types are errors.
 
-use crate::adapter::{Config, STD};
+use crate::adapter::{configs, Config, STD};
 use crate::engine::{Ctx, Input, Rec, Verdict};
 use crate::gen::payload::{payload_inputs, LenMode};
 use crate::props::payload::check_input;
@@ -43,7 +43,10 @@ pub fn run(ctx: &mut Ctx) {
                 if ctx.sub_failed("type-by-length") {
                     return;
                 }
-                ctx.sweep_case("type-by-length", &STD, &Input::Payload { bytes: b }, check);
+                let input = Input::Payload { bytes: b };
+                for cfg in configs() {
+                    ctx.sweep_case("type-by-length", cfg, &input, check);
+                }
             }
         }
     }
